@@ -31,6 +31,8 @@ type FlowOpts struct {
 	BigPayload         int // permille of payloads in the KiB range
 	BreakW             int // weight of the environment action "break connection"
 	PartW              int // weight of the environment action "partition" (the connection goes silent)
+	InWindow           int  // the broker's in-flight window: no new message while that many QoS 1/2 transactions are open (0: unlimited)
+	ReuseIDs           bool // the broker reuses packet identifiers as soon as their transaction is complete
 	LazyResend         bool // the broker postpones the retransmission of messages the application holds unacknowledged
 	Budget             int
 	SelectMode         uint32
@@ -155,6 +157,7 @@ type Flow struct {
 	ReaderInEnd                  string // ... when the scheduler loop ended
 	LastReadTime                 map[int]time.Duration
 	HoldFinalAcks                bool
+	HoldUntilLastGen             bool // PUBACK and PUBCOMP are withheld in every incarnation but the last
 	LoadDamage                   int // Load results altered in flight
 	lastSeq                      uint64
 	Closers                      []*Closer
@@ -893,6 +896,19 @@ func (f *Flow) env() []Action {
 	sessOK := !f.StrictInbound
 	if c := s.Cur(); c != nil && w.Broker.SessionOf(c) != nil {
 		sessOK = true
+	}
+	if f.O.InWindow > 0 && sessOK {
+		open := 0
+		if sess := w.Broker.Sessions[f.O.ClientID]; sess != nil {
+			for _, m := range sess.Out {
+				if m.QoS > 0 && m.Stage != 3 {
+					open++
+				}
+			}
+		}
+		if open >= f.O.InWindow {
+			sessOK = false
+		}
 	}
 	if f.InSent < f.O.Inbound && f.C != nil && sessOK {
 		acts = append(acts, Action{Name: "broker-publish", Weight: 6, Run: f.brokerPublish})
